@@ -211,6 +211,18 @@ type signedCase struct {
 func (g *G) adversary(prefix, body []byte, sg *signer, other *signer) []signedCase {
 	r := g.R
 	out := []signedCase{{cat(body, sg.sign(cat(prefix, body))), "signed"}}
+	// coordinated two-field edit after signing: the identity's certificate length is raised by k and k bytes are
+	// inserted behind its payload (a NULL certificate with a payload, a KEY certificate with excess payload): the
+	// structure still frames, but these bytes were never signed
+	if len(body) >= 387 && (body[384] == 0 || body[384] == 5) {
+		good := cat(body, sg.sign(cat(prefix, body)))
+		clen := int(body[385])<<8 | int(body[386])
+		if at := 387 + clen; at <= len(body) && clen+2 <= 65535 {
+			k := r.pick(1, 2, 2, 40)
+			m := cat(good[:385], u16(clen+k), good[387:at], r.bytes(k), good[at:])
+			out = append(out, signedCase{m, "cert-payload-inserted"})
+		}
+	}
 	if !g.quick() || r.coin(0.5) {
 		// wrong key of the same type
 		w := g.newSigner(sg.typ)
@@ -439,9 +451,17 @@ func genSignedStructs(g *G, count int) {
 		}
 		// LeaseSet (type 1): destination, ElGamal key, revocation key, leases, signature by the destination key
 		id = g.pickIdentity(false)
+		nullRound := i == 0 || i == 5 // every run has LeaseSets of a NULL-certificate (DSA/ElGamal) destination
+		if nullRound {
+			id = g.newIdentity(0, 0, true, nil)
+		}
 		elg := r.bytes(256)
 		elg[0] &= 0x7f
-		switch r.intn(12) {
+		elgKind := r.intn(12)
+		if nullRound {
+			elgKind = 11 // a usable ElGamal key
+		}
+		switch elgKind {
 		case 0:
 			elg = make([]byte, 256)
 		case 1:
@@ -454,7 +474,7 @@ func genSignedStructs(g *G, count int) {
 		}
 		rev := g.newSigner(id.sg.typ)
 		revKey := rev.pub
-		if id.null && r.coin(0.1) {
+		if id.null && r.coin(0.1) && !nullRound {
 			revKey = make([]byte, 128)
 		}
 		lb := cat(id.bytes, elg, revKey)
